@@ -23,6 +23,7 @@ import (
 	"time"
 
 	"github.com/vicanso/pike/config"
+	"github.com/vicanso/pike/store"
 	"pgregory.net/rapid"
 
 	"verif/harness/internal/vstat"
@@ -76,7 +77,7 @@ func genC08(t *rapid.T) c08Scenario {
 	n := rapid.IntRange(8, 22).Draw(t, "nOps")
 	sleepBudget := 6000
 	for i := 0; i < n; i++ {
-		switch rapid.IntRange(0, 11).Draw(t, "op") {
+		switch rapid.IntRange(0, 12).Draw(t, "op") {
 		case 0, 1, 2, 3:
 			sc.Ops = append(sc.Ops, c08Op{K: "get", Key: rapid.IntRange(0, nk-1).Draw(t, "key")})
 		case 4, 5:
@@ -112,6 +113,15 @@ func genC08(t *rapid.T) c08Scenario {
 			if allowTerm && kills < maxKills {
 				kills++
 				sc.Ops = append(sc.Ops, c08Op{K: "term"})
+			}
+		case 12:
+			// the instance is killed and the next one starts while something else still holds the
+			// store directories (the previous process inside its close grace, a backup job): it
+			// must start and serve, without persistence; a further kill and a restart on the free
+			// directories follow
+			if kills == 0 {
+				kills += 2
+				sc.Ops = append(sc.Ops, c08Op{K: "heldkill", Key: rapid.IntRange(0, nk-1).Draw(t, "from"), N: rapid.IntRange(8, nk).Draw(t, "n")})
 			}
 		}
 	}
@@ -190,6 +200,7 @@ func execC08(sc c08Scenario) *vstat.Outcome {
 	var p *pikeProc
 	epoch := 0
 	var killTimes []time.Time // killTimes[i] = moment instance i was killed
+	heldStores := 0
 	start := func(first bool) bool {
 		var cfgData []byte
 		if first {
@@ -316,6 +327,32 @@ func execC08(sc c08Scenario) *vstat.Outcome {
 			if !restart() {
 				return out
 			}
+		case "heldkill":
+			killTimes = append(killTimes, time.Now())
+			p.kill()
+			var held []store.Store
+			for _, d := range []string{"/badger", "/badger-b"} {
+				if _, err := os.Stat(dir + d); err != nil {
+					continue
+				}
+				if st, err := store.NewStore("badger://" + dir + d); err == nil && st != nil {
+					held = append(held, st)
+				}
+			}
+			heldStores = len(held)
+			ok := restart()
+			if ok {
+				burst(op.Key, op.N).Wait()
+				burst(op.Key, op.N).Wait()
+				killTimes = append(killTimes, time.Now())
+				p.kill()
+			}
+			for _, st := range held {
+				_ = st.Close()
+			}
+			if !ok || !restart() {
+				return out
+			}
 		case "term":
 			p.term()
 			select {
@@ -370,11 +407,24 @@ func execC08(sc c08Scenario) *vstat.Outcome {
 		}
 		return t
 	}
+	if heldStores > 0 {
+		out.Class("restart_while_the_store_directories_are_held")
+	}
 	restoredHit, expiredRefetch := 0, 0
 	hitsAfterKill := 0
 	for _, r := range resps {
 		if r.Err != "" {
-			continue // killed mid-flight
+			// killed mid-flight? (a request that overlaps no kill must be answered)
+			overlaps := false
+			for _, kt := range killTimes {
+				if !kt.Before(r.Start.Add(-50*time.Millisecond)) && !kt.After(r.End.Add(50*time.Millisecond)) {
+					overlaps = true
+				}
+			}
+			if !overlaps {
+				out.Violate("C08", "not-served", "request %s on key %d through server %d in instance %d failed although no instance was stopped while it ran: %s", r.ReqID, r.Key, r.Srv, r.Epoch, r.Err)
+			}
+			continue
 		}
 		k := sc.Keys[r.Key]
 		what := fmt.Sprintf("request %s on key %d (T=%d) through server %d in instance %d", r.ReqID, r.Key, k.T, r.Srv, r.Epoch)
